@@ -45,6 +45,134 @@ def doubleBs : Str → Str
   | [] => []
   | c :: r => if c == '\\' then '\\' :: '\\' :: doubleBs r else c :: doubleBs r
 
+/-! ### tail-recursive forms for compiled code (`@[csimp]`): the driver handles megabyte lines without
+deep recursion; all proofs are about the structural definitions above -/
+
+def splitLinesAux : Str → Str → List Str → List Str
+  | [], cur, acc => (if cur.isEmpty then acc else cur.reverse :: acc).reverse
+  | '\r' :: '\n' :: r, cur, acc => splitLinesAux r [] (cur.reverse :: acc)
+  | '\n' :: r, cur, acc => splitLinesAux r [] (cur.reverse :: acc)
+  | c :: r, cur, acc => splitLinesAux r (c :: cur) acc
+
+def splitLinesTR (s : Str) : List Str := splitLinesAux s [] []
+
+/-- `p` glued in front of the first line -/
+def glue (p : Str) : List Str → List Str
+  | [] => if p.isEmpty then [] else [p]
+  | l :: t => (p ++ l) :: t
+
+theorem glue_cons (p l : Str) (t : List Str) : glue p (l :: t) = (p ++ l) :: t := rfl
+
+theorem glue_nil (ls : List Str) : glue [] ls = ls := by
+  cases ls <;> simp [glue]
+
+theorem splitLines_cons_other (c : Char) (r : Str) (h1 : c ≠ '\n') (h2 : ∀ r', c = '\r' → r = '\n' :: r' → False) :
+    splitLines (c :: r) = match splitLines r with
+      | [] => [[c]]
+      | l :: ls => (c :: l) :: ls := by
+  rw [splitLines.eq_def]
+  split
+  · rename_i heq; cases heq
+  · rename_i r' heq
+    obtain ⟨e1, e2⟩ := List.cons.inj heq
+    exact (h2 r' e1 e2).elim
+  · rename_i r' heq; exact (h1 (List.cons.inj heq).1).elim
+  · rename_i c' r' _ _ heq
+    obtain ⟨e1, e2⟩ := List.cons.inj heq
+    subst e1; subst e2; rfl
+
+theorem splitLinesAux_cons_other (c : Char) (r cur : Str) (acc : List Str) (h1 : c ≠ '\n')
+    (h2 : ∀ r', c = '\r' → r = '\n' :: r' → False) :
+    splitLinesAux (c :: r) cur acc = splitLinesAux r (c :: cur) acc := by
+  rw [splitLinesAux.eq_def]
+  split
+  · rename_i heq; cases heq
+  · rename_i heq
+    obtain ⟨e1, e2⟩ := List.cons.inj heq
+    exact (h2 _ e1 e2).elim
+  · rename_i heq; exact (h1 (List.cons.inj heq).1).elim
+  · rename_i c' r' _ _ _ _ heq
+    obtain ⟨e1, e2⟩ := List.cons.inj heq
+    subst e1; subst e2; rfl
+
+theorem splitLinesAux_eq (s cur : Str) (acc : List Str) :
+    splitLinesAux s cur acc = acc.reverse ++ glue cur.reverse (splitLines s) := by
+  induction hn : s.length using Nat.strongRecOn generalizing s cur acc with
+  | _ n ih =>
+    cases s with
+    | nil =>
+      simp only [splitLinesAux, splitLines, glue]
+      cases cur <;> simp
+    | cons c r =>
+      have ihr : ∀ cur acc, splitLinesAux r cur acc = acc.reverse ++ glue cur.reverse (splitLines r) :=
+        fun cur acc => ih r.length (by simp at hn; omega) r cur acc rfl
+      by_cases hnl : c = '\n'
+      · subst hnl
+        simp only [splitLinesAux, splitLines, ihr, glue_cons, List.reverse_cons, List.reverse_nil, glue_nil,
+          List.append_nil, List.append_assoc, List.cons_append, List.nil_append]
+      · by_cases hcr : ∃ r', c = '\r' ∧ r = '\n' :: r'
+        · obtain ⟨r', e1, e2⟩ := hcr
+          subst e1; subst e2
+          have ihr' : ∀ cur acc, splitLinesAux r' cur acc = acc.reverse ++ glue cur.reverse (splitLines r') :=
+            fun cur acc => ih r'.length (by simp at hn; omega) r' cur acc rfl
+          simp only [splitLinesAux, splitLines, ihr', glue_cons, List.reverse_cons, List.reverse_nil, glue_nil,
+            List.append_nil, List.append_assoc, List.cons_append, List.nil_append]
+        · have h2 : ∀ r', c = '\r' → r = '\n' :: r' → False := fun r' e1 e2 => hcr ⟨r', e1, e2⟩
+          rw [splitLinesAux_cons_other c r cur acc hnl h2, ihr, splitLines_cons_other c r hnl h2]
+          cases splitLines r with
+          | nil => simp [glue]
+          | cons l ls => simp [glue]
+
+@[csimp] theorem splitLines_eq_TR : @splitLines = @splitLinesTR := by
+  funext s
+  simp [splitLinesTR, splitLinesAux_eq, glue_nil]
+
+def doubleBsAux : Str → Str → Str
+  | [], acc => acc.reverse
+  | c :: r, acc => if c == '\\' then doubleBsAux r ('\\' :: '\\' :: acc) else doubleBsAux r (c :: acc)
+
+theorem doubleBsAux_eq (s acc : Str) : doubleBsAux s acc = acc.reverse ++ doubleBs s := by
+  induction s generalizing acc with
+  | nil => simp [doubleBsAux, doubleBs]
+  | cons c r ih =>
+    simp only [doubleBsAux, doubleBs]
+    split <;> simp [ih]
+
+def doubleBsTR (s : Str) : Str := doubleBsAux s []
+
+@[csimp] theorem doubleBs_eq_TR : @doubleBs = @doubleBsTR := by
+  funext s; simp [doubleBsTR, doubleBsAux_eq]
+
+def collapseBsAux : Str → Str → Str
+  | '\\' :: '\\' :: r, acc => collapseBsAux r ('\\' :: acc)
+  | c :: r, acc => collapseBsAux r (c :: acc)
+  | [], acc => acc.reverse
+
+theorem collapseBsAux_eq (s acc : Str) : collapseBsAux s acc = acc.reverse ++ collapseBs s := by
+  induction s using collapseBs.induct generalizing acc with
+  | case1 r ih => simp [collapseBsAux, collapseBs, ih]
+  | case2 d r hne ih =>
+    rw [collapseBsAux.eq_def, collapseBs.eq_def]
+    split
+    · rename_i heq; exact (hne _ (List.cons.inj heq).1 (List.cons.inj heq).2).elim
+    · rename_i d' r' acc' _ heq
+      obtain ⟨e1, e2⟩ := List.cons.inj heq
+      subst e1; subst e2
+      split
+      · rename_i r2 heq2; exact (hne r2 (List.cons.inj heq2).1 (by rw [(List.cons.inj heq2).2])).elim
+      · rename_i d2 r2 _ heq2
+        obtain ⟨e3, e4⟩ := List.cons.inj heq2
+        subst e3; subst e4
+        simp [ih]
+      · rename_i heq2; cases heq2
+    · rename_i heq; cases heq
+  | case3 => simp [collapseBsAux, collapseBs]
+
+def collapseBsTR (s : Str) : Str := collapseBsAux s []
+
+@[csimp] theorem collapseBs_eq_TR : @collapseBs = @collapseBsTR := by
+  funext s; simp [collapseBsTR, collapseBsAux_eq]
+
 def escValue (v : Str) : Str := doubleBs (collapseBs v)
 
 def isBlankVal (v : Str) : Bool := (trimSpace v).isEmpty
